@@ -448,7 +448,9 @@ def run_rotation(case):
         tkind = case.get("template", "hour")
         tmpl = os.path.join(d, {"hour": "{name}-{record._generated:%Y%m%dT%H}.records.gz",
                                 "minute": "{name}-{record._generated:%Y%m%dT%H%M}.records.gz",
-                                "field": "{name}-{record._generated:%Y%m%dT%H}-{record.s}.records.gz"}[tkind])
+                                "field": "{name}-{record._generated:%Y%m%dT%H}-{record.s}.records.gz",
+                                "offset": "{name}-{record._generated:%Y%m%dT%H}.records.gz",
+                                "zst": "{name}-{record._generated:%Y%m%dT%H}.records.zst"}[tkind])
         hours = {"h1": 1, "h2": 2, "h3": 3}
         sentinels = []
         door = case.get("door", "template")
@@ -480,10 +482,14 @@ def run_rotation(case):
                 w = PathTemplateWriter(tmpl)
             for i, hb in enumerate(seq):
                 ts = "dt(2021,5,5,%d,%d,0,tz=UTC)" % (hours[hb], i)
+                if tkind == "offset":
+                    # +05:30: h1 -> 11:50 local (06:20Z), h2 -> 12:10 local (06:40Z), h3 -> 12:50 local (07:20Z): one UTC hour holds two local hours
+                    ts = {"h1": "dt(2021,5,5,11,50,%d,tz=off(5,30))", "h2": "dt(2021,5,5,12,10,%d,tz=off(5,30))", "h3": "dt(2021,5,5,12,50,%d,tz=off(5,30))"}[hb] % i
                 sval = "k%d" % (i % 2)
                 r = recs.build_record(rs("w/one", [["string", "s"], ["varint", "n"]], ["'%s'" % sval, str(i)], _generated=ts))
                 w.write(r)
-                prefix_ = {"hour": "records-20210505T%02d" % hours[hb], "minute": "records-20210505T%02d%02d" % (hours[hb], i),
+                prefix_ = {"offset": "records-20210505T%s" % {"h1": "11", "h2": "12", "h3": "12"}[hb], "zst": "records-20210505T%02d" % hours[hb],
+                           "hour": "records-20210505T%02d" % hours[hb], "minute": "records-20210505T%02d%02d" % (hours[hb], i),
                            "field": "records-20210505T%02d-%s" % (hours[hb], sval)}[tkind]
                 written.append((("w/one", i), prefix_))
             w.close()
@@ -569,6 +575,9 @@ def cases(tier, seed):
                 for seq in itertools.product(["h1", "h2", "h3"], repeat=k):
                     for pre in (False, True):
                         yield {"kind": "rotation", "seq": list(seq), "pre": pre, "clock": "advances", "door": door}
+            for tk in ("offset", "zst"):
+                for seq in itertools.product(["h1", "h2", "h3"], repeat=k):
+                    yield {"kind": "rotation", "seq": list(seq), "pre": False, "clock": "advances", "template": tk}
             for tk in ("minute", "field"):
                 for seq in itertools.product(["h1", "h2"], repeat=k):
                     yield {"kind": "rotation", "seq": list(seq), "pre": False, "clock": "advances", "template": tk}
